@@ -46,6 +46,7 @@ class TObj(T):
 
     cls: str
     only: tuple = ()  # optional restriction of the concrete classes considered
+    ftypes: tuple = ()  # optional ((field, T), ...) sorts of this object's fields
 
 
 @dataclass(frozen=True)
@@ -79,6 +80,22 @@ class TDict(T):
 @dataclass(frozen=True)
 class TSet(T):
     elem: T
+
+
+@dataclass(frozen=True)
+class TRecord(T):
+    """A dict with a fixed set of string keys and symbolic values (e.g. a properties dict)."""
+
+    fields: tuple  # ((key, T), ...)
+
+
+@dataclass(frozen=True)
+class TObjMap(T):
+    """dict[scalar, object]: every lookup yields an unconstrained optional object of the given class
+    (over-approximation: two lookups of one key are not related)."""
+
+    key: T
+    val: T
 
 
 @dataclass(frozen=True)
